@@ -234,11 +234,22 @@ func (r *AofRotateReader) tryReadNextFile(offset int64) error {
 		}
 		return err
 	}
-	err = r.closeAof()
-	if err != nil {
-		r.logger.Errorf("close error : %v", err)
+	// the segment being left stays registered until the next one is: a reader that is registered with no segment
+	// has nothing pinned against the collector (which would take the very segment it is about to open) and is not
+	// seen by a reset of the dataset
+	prevFile, prevLeft, prevPath := r.file, r.left, r.filepath
+	err = r.openFile(offset)
+	if prevFile != nil {
+		if cerr := prevFile.Close(); cerr != nil {
+			r.logger.Errorf("close error : file(%s), error(%v)", prevPath, cerr)
+		}
+		(*r.observer.Load()).Close(prevLeft)
+		if r.file == prevFile { // the next file could not be opened
+			r.file = nil
+			r.closed.Store(true)
+		}
 	}
-	return r.openFile(offset)
+	return err
 }
 
 // @TODO not thread safe
